@@ -157,6 +157,12 @@ theorem dealPolys_not_panic (next : σ → σ × Nat) (fuel t : Nat) (cs : List 
           | err k' => simp
           | panic w' => exact absurd hr (ih g1 w')
 
+theorem DealtFrom.length {next : σ → σ × Nat} {fuel t : Nat} {elems : List Nat} {g g' : σ}
+    {polys : List (List Nat)} (h : DealtFrom next fuel t elems g g' polys) : polys.length = elems.length := by
+  induction h with
+  | nil => rfl
+  | cons _ _ _ _ _ _ _ _ _ ih => simp [ih]
+
 /-- consequences of the dealing relation used by recovery -/
 theorem DealtFrom.dealt {next : σ → σ × Nat} {fuel t : Nat} (ht : 1 ≤ t) {elems : List Nat} {g g' : σ}
     {polys : List (List Nat)} (h : DealtFrom next fuel t elems g g' polys)
